@@ -4,7 +4,15 @@ The task text contains ONLY the property's own text (title, statement, quantifie
 import os, json
 VERIF = os.path.dirname(os.path.dirname(os.path.abspath(__file__)))
 OUT = '/root/seedtasks'
-AVOID = json.load(open('/root/seedtasks_avoid.json')) if os.path.exists('/root/seedtasks_avoid.json') else {}
+import glob, sys
+ROUNDS = sys.argv[1:] or ['a', 'b']      # e.g. `mkseedtasks.py c` writes the third-round task files
+AVOID = {}
+for mp in sorted(glob.glob(os.path.join(VERIF, 'seeded', '*', 'meta.json'))):
+    try:
+        m = json.load(open(mp))
+    except ValueError:
+        continue
+    AVOID.setdefault(m.get('property'), []).append((m.get('summary') or '')[:400])
 os.makedirs(OUT, exist_ok=True)
 T = '''You are stress-testing how well a Go project's guarantees are protected. The project is anz-bank/sysl (a system
 specification language toolchain: ANTLR parser, protobuf model, expression evaluator, importers/exporters, diagram and
@@ -60,7 +68,7 @@ the evidence that suite passes / demo fails with / demo passes without.
 for l in open(os.path.join(VERIF, 'properties.jsonl')):
     p = json.loads(l)
     files = ', '.join(p['anchors'].get('files', []))
-    for k, n in (('a', 2), ('b', 2)):
+    for k, n in [(r, 2) for r in ROUNDS]:
         extra = ''
         if k != 'a' and AVOID.get(p['id']):
             extra = '\nAn earlier round already produced these regressions for this property — yours must differ from them in code site AND in kind:\n' + ''.join('  * %s\n' % a for a in AVOID[p['id']])
